@@ -11,6 +11,7 @@ import (
 )
 
 var checks = map[string]func(run *ev.Run){
+	"C03": genlab.CheckC03,
 	"C06": genlab.CheckC06,
 	"C08": genlab.CheckC08,
 	"C09": genlab.CheckC09,
